@@ -20,7 +20,7 @@ from typing import Any
 from detsim import env, gen, minimize, rng, runner
 from detsim.observe import exc_token, hashes, observe_chart, observe_track, scrub, us
 from detsim.runner import Discard
-from detsim.sched import HarnessError, Scheduler
+from detsim.sched import HarnessError, Scheduler, SimDeadlock, deadlock_result
 
 PROP = "C19"
 LEVEL = "exploration"
@@ -641,6 +641,10 @@ def execute(plan: dict[str, Any]) -> dict[str, Any]:
     harness_error = None
     try:
         sched.run([body_for(i) for i in range(n_clients)])
+    except SimDeadlock as e:
+        # threads / locks the library made itself, all of them scheduled by the simulator:
+        # under this schedule a call never returns (its reference does)
+        return deadlock_result(PROP, e, sched)
     except HarnessError as e:
         harness_error = str(e)
     if cold and harness_error is None and not state["halt"]:
